@@ -120,6 +120,10 @@ pub struct ReaderScript {
     /// after the data, repeat this fragment for ever
     #[serde(default, skip_serializing_if = "Option::is_none")]
     pub endless: Option<Vec<u8>>,
+    /// a reader that reports its end once and blocks for ever when it is asked again (a terminal after
+    /// Ctrl-D, a FIFO whose writer stays around): being polled after `Ok(0)` is the simulated hang
+    #[serde(default, skip_serializing_if = "std::ops::Not::not")]
+    pub blocks_after_eof: bool,
 }
 
 impl ReaderScript {
@@ -162,6 +166,8 @@ pub struct ReaderState {
     pub sticky: Option<ErrKind>,
     pub forced_eof: bool,
     pub nonsticky_done: bool,
+    /// the natural end of the data has been reported with `Ok(0)`
+    pub eof_reported: bool,
     pub ended: bool,
     pub post_end_reads: u64,
     pub endless_pos: usize,
@@ -247,6 +253,12 @@ impl io::Read for SimReader {
             log(st, 0, 0);
             return Ok(0);
         }
+        if st.eof_reported && st.script.blocks_after_eof {
+            drop(guard);
+            std::panic::panic_any(SimMarker::Liveness(
+                "reader polled again after it had reported its end with Ok(0): this reader blocks there for ever".to_string(),
+            ));
+        }
         if let Some(k) = st.sticky {
             log(st, buf.len(), -1 - (k as i64));
             return Err(io::Error::new(k.to_io(), SIM_ERR_MSG));
@@ -323,6 +335,7 @@ impl io::Read for SimReader {
                 return Ok(n);
             }
             st.ended = true;
+            st.eof_reported = true;
             log(st, buf.len(), 0);
             return Ok(0);
         }
